@@ -11,7 +11,8 @@ V = ["val"]
 
 FORMS = [
     "bind", "bindvar", "tuple", "nested", "star", "chain", "chainstore", "aug", "ann", "attr", "sub",
-    "walrus", "nestedwalrus", "if", "ifelse", "ifchain", "for", "forelse", "fortuple", "while", "try", "tryfinally",
+    "walrus", "nestedwalrus", "if", "ifelse", "ifchain", "for", "forelse", "fortuple", "while", "whileelse",
+    "try", "tryelse", "tryfinally", "finallyreturn", "augattr",
     "with", "import", "nesteddef", "use", "pt", "ret", "retnone", "raise", "call",
 ]
 NAMES = ["a", "b", "c", "d", "e", "f", "g", "h"]
@@ -77,7 +78,8 @@ class Gen:
         forms = [f for f in self.enabled]
         kind = rng.choice(sorted(forms))
         if depth >= self.max_depth and kind in (
-            "if", "ifelse", "ifchain", "for", "forelse", "fortuple", "while", "try", "tryfinally", "with"):
+            "if", "ifelse", "ifchain", "for", "forelse", "fortuple", "while", "whileelse", "try", "tryelse",
+            "tryfinally", "finallyreturn", "with"):
             kind = "bind"
         if kind == "bind":
             x = self.name()
@@ -190,10 +192,20 @@ class Gen:
             return ["for", ["t", [x, y]], self.block(depth + 1, True), []]
         if kind == "while":
             return ["while", self.block(depth + 1, True)]
-        if kind in ("try", "tryfinally"):
+        if kind == "whileelse":
+            return ["while", self.block(depth + 1, True), self.block(depth + 1, in_loop, 1)]
+        if kind == "augattr":
+            if not self.objs:
+                return None
+            o = rng.choice(sorted(self.objs))
+            return [["bind", ["attr", o, "acc"], V], ["augattr", o, "acc", self.expr()]]
+        if kind == "finallyreturn":
+            # a return in a finally clause swallows whatever was in flight
+            return ["try", self.block(depth + 1, in_loop), [], [], [["if", [["ret", self.expr()]], []]]]
+        if kind in ("try", "tryelse", "tryfinally"):
             body = self.block(depth + 1, in_loop)
             handlers = []
-            if kind == "try" or rng.random() < 0.5:
+            if kind in ("try", "tryelse") or rng.random() < 0.5:
                 exc = rng.choice(["ProgErr", "EnvFault", "Exception", None])
                 asn = rng.choice([None, "e", self.name()]) if exc else None
                 if asn:
@@ -205,7 +217,8 @@ class Gen:
             final = self.block(depth + 1, in_loop, 1) if kind == "tryfinally" else []
             if not handlers and not final:
                 final = [["pt"]]
-            return ["try", body, handlers, [], final]
+            orelse = self.block(depth + 1, in_loop, 1) if (kind == "tryelse" and handlers) else []
+            return ["try", body, handlers, orelse, final]
         if kind == "with":
             asn = rng.choice([None, self.name()])
             if asn:
@@ -253,8 +266,28 @@ def gen_function(rng, name, is_gen=False, helper=None, swarm=None):
     g = Gen(rng, is_gen=is_gen, helper=helper, max_depth=rng.choice([1, 2, 2, 3]),
             budget=rng.randint(5, 16), enabled=enabled)
     params = ["p"] + (["q"] if rng.random() < 0.4 else [])
-    for p in params:
+    extra = {}
+    if rng.random() < 0.3 and name == "rf":
+        # the full parameter zoo: positional-only, *args, keyword-only, **kwargs
+        if rng.random() < 0.5:
+            extra["posonly"] = 1
+        if rng.random() < 0.5:
+            extra["vararg"] = "va"
+        if rng.random() < 0.6:
+            extra["kwonly"] = ["k"]
+        if rng.random() < 0.4:
+            extra["kwarg"] = "kw"
+    if rng.random() < 0.2:
+        extra["doc"] = "generated actor; its docstring must survive instrumentation"
+    if rng.random() < 0.12 and name == "rf":
+        extra["kind"] = "deco"
+    if rng.random() < 0.15:
+        extra["pann"] = {"p": rng.choice(["int", '"@A"', '"@A & @B"'])}
+    for p in params + extra.get("kwonly", []):
         g.mark_int(p)
+    for p in (extra.get("vararg"), extra.get("kwarg")):
+        if p:
+            g.mark_other(p)
     body = g.block(0, False, rng.randint(2, 6))
     if is_gen:
         # sprinkle yields at top level and inside the first loop we find
@@ -276,6 +309,7 @@ def gen_function(rng, name, is_gen=False, helper=None, swarm=None):
             body.append(["ret", None])
         # else: falls off the end
     fn = {"name": name, "params": params, "body": body}
+    fn.update(extra)
     if len(params) == 2 and rng.random() < 0.5:
         fn["defaults"] = 1
     _sanitize(fn)
